@@ -17,6 +17,7 @@ mod abi_fixed;
 mod gen_abi;
 mod crypto_ops;
 mod intro_ops;
+mod conc_ops;
 
 fn main() {
     std::panic::set_hook(Box::new(|_| {}));
@@ -42,7 +43,10 @@ fn main() {
     }
 }
 
-fn dispatch(op: &str, toks: &[&str]) -> String {
+pub fn dispatch(op: &str, toks: &[&str]) -> String {
+    if let Some(r) = conc_ops::dispatch(op, toks) {
+        return r;
+    }
     if let Some(r) = schema_ops::dispatch(op, toks) {
         return r;
     }
